@@ -406,7 +406,15 @@ func Run(sc *uw.Scenario) *simkit.Outcome {
 			if lerr != nil {
 				continue // a loop leads nowhere
 			}
-			if !simkit.Under(res, realDst) && !allowedPhys(res, sc.Allow, realDst) {
+			// (a relative allow-list entry means a place relative to the destination as the
+			// caller spelled it; where that spelling runs through a link, the text of a target
+			// and the place it leads to differ, and either reading of the entry is accepted)
+			lexEnd := filepath.Join(filepath.Dir(dstClean+"/"+p), n.Target)
+			if strings.HasPrefix(n.Target, "/") {
+				lexEnd = filepath.Clean(n.Target)
+			}
+			allowedAsSpelled := realDst != dstClean && relAllow(sc.Allow) && allowedPhys(lexEnd, sc.Allow, dstClean)
+			if !simkit.Under(res, realDst) && !allowedPhys(res, sc.Allow, realDst) && !allowedAsSpelled {
 				escs = append(escs, esc{p, n.Target, res, c04Class(n.Target, p, tree)})
 			} else if strings.HasPrefix(n.Target, "/") && !allowedPhys(filepath.Clean(n.Target), sc.Allow, realDst) {
 				out.Violate("C04", "absolute-link-kept", "abs-inside", fmt.Sprintf("archive %d (err=%s): link %s has absolute target %q and was created", ai, es, p, n.Target))
@@ -865,4 +873,14 @@ func storedBytes(root string) int64 {
 		return nil
 	})
 	return n
+}
+
+// relAllow: does the allow list hold a relative entry?
+func relAllow(allow []string) bool {
+	for _, a := range allow {
+		if !strings.HasPrefix(a, "/") {
+			return true
+		}
+	}
+	return false
 }
